@@ -60,7 +60,7 @@ type c07Sig struct {
 }
 
 type c07Op struct {
-	Kind  string   `json:"k"` // vote | delegate | undelegate | stake | unstake | denoms | end
+	Kind  string   `json:"k"` // vote | delegate | undelegate | stake | unstake | denoms | reimport | end
 	Voter int      `json:"voter,omitempty"`
 	Sigs  []c07Sig `json:"sigs,omitempty"`
 	Wrap  int      `json:"wrap,omitempty"`  // 0 plain; 3: {2^63-1, 2^63-1, 2+t}; 4: {2^62, 2^62, 2^62, 2^62+t}  (int64 sum == t)
@@ -303,6 +303,9 @@ func genC07(rt *rapid.T) c07Case {
 		} else {
 			denomsOp(0)
 		}
+		if gen.Chance(rt, "sdreimp", 1, 4) {
+			c.Ops = append(c.Ops, c07Op{Kind: "reimport"}) // round trip while the power is below the lock
+		}
 		re := c07Op{Kind: "vote", Voter: voter}
 		if gen.Chance(rt, "sdsame", 3, 4) {
 			re.Same = gen.OneOf(rt, "sdsamek", 1, 2, 3, 3)
@@ -363,6 +366,10 @@ func genC07(rt *rapid.T) c07Case {
 		}
 		c.Ops = append(c.Ops, first)
 		end(9)
+		reimportAt := gen.Pick(rt, "screimp", 6, 1, 2) // 0 none, 1 between vote and re-vote, 2 between re-vote and withdrawal
+		if reimportAt == 1 {
+			c.Ops = append(c.Ops, c07Op{Kind: "reimport"})
+		}
 		re := c07Op{Kind: "vote", Voter: voter, Same: gen.OneOf(rt, "scsame", 1, 2, 3, 3), Parts: 1 + gen.Uniform(rt, "scparts", c.MaxFeeds),
 			Base: gen.Uniform(rt, "scbase", c.K), Sigs: first.Sigs}
 		for i := 0; i < c.MaxFeeds; i++ {
@@ -370,6 +377,9 @@ func genC07(rt *rapid.T) c07Case {
 		}
 		c.Ops = append(c.Ops, re)
 		end(9)
+		if reimportAt == 2 {
+			c.Ops = append(c.Ops, c07Op{Kind: "reimport"})
+		}
 		amt := gen.OneOf(rt, "scamt", &c07Num{K: "edge", D: 1}, &c07Num{K: "edge", D: 1}, &c07Num{K: "all"}, &c07Num{K: "edge", D: 0}, &c07Num{K: "edge", D: 2})
 		if gen.Chance(rt, "scund", 1, 2) {
 			c.Ops = append(c.Ops, c07Op{Kind: "undelegate", Voter: voter, Val: val, Amt: amt})
@@ -446,6 +456,10 @@ func genC07(rt *rapid.T) c07Case {
 		case w < 89:
 			isTx = false
 			genDenoms()
+		case w < 92:
+			// genesis export -> new application instance initialised from the exported document
+			isTx = false
+			c.Ops = append(c.Ops, c07Op{Kind: "reimport"})
 		default:
 			isTx = false
 			c.Ops = append(c.Ops, c07Op{Kind: "end", N: gen.Range(rt, "nblk", 1, c.UpdateInterval+1), Dt: gen.OneOf(rt, "dt", 1, 1, 3, 40)})
@@ -678,7 +692,16 @@ func runC07(c c07Case) *pbt.Verdict {
 	// excused[v]: the voter's power fell below its lock when governance removed a denom from AllowedDenoms; stays
 	// set until the power covers the lock again (only then may the standing vote exceed the power on committed state)
 	excused := make([]bool, c.NVoters)
-	var afterBlock func()               // runs once after the txs of the next block were judged, before the state check
+	var afterBlock func() // runs once after the txs of the next block were judged, before the state check
+	// genesis export / import round trips
+	var (
+		reimports, reimportWithVote, reimportBelowLock, reimportFeedsRecomputed, reimportFeedsCarried   int
+		acceptedAfterReimport, rejectedOverAfterReimport, withdrawRejAfterReimport, updateAfterReimport int
+		lastUpdateUnasserted                                                                            int
+	)
+	justReimported := false    // the block under check is the first block of a re-imported application
+	lastUpdateUnknown := false // since a re-import no update block has passed: CurrentFeeds.LastUpdateBlock is whatever InitGenesis wrote
+	sanitySig := "C07/harness-power-model"
 	lastSame := make([]bool, c.NVoters) // the voter\'s latest accepted vote was a re-vote with an unchanged total (> 0)
 
 	resolve := func(n c07Num, voter int, used *big.Int, holding *big.Int) *big.Int {
@@ -826,8 +849,6 @@ func runC07(c c07Case) *pbt.Verdict {
 	var pend []c07Tx
 	var pendTxs [][]byte
 	expFeeds := []c07Feed{} // model of CurrentFeeds (genesis: empty)
-	feedsKey := ch.App.GetKey(feedstypes.StoreKey)
-	restakeKey := ch.App.GetKey(restaketypes.StoreKey)
 
 	addTx := func(o c07Op) {
 		voter := o.Voter
@@ -896,6 +917,9 @@ func runC07(c c07Case) *pbt.Verdict {
 	checkState := func(height int64, now time.Time) {
 		ctx := ch.Ctx()
 		fk, rk := ch.App.FeedsKeeper, ch.App.RestakeKeeper
+		// (a re-import replaces the application instance, and store keys belong to the instance)
+		feedsKey := ch.App.GetKey(feedstypes.StoreKey)
+		restakeKey := ch.App.GetKey(restaketypes.StoreKey)
 		modelTotals := m.totals()
 
 		// harness sanity: the model's idea of every voter's holdings is what staking / restake store
@@ -907,13 +931,13 @@ func runC07(c c07Case) *pbt.Verdict {
 					got = d.Shares.TruncateInt().BigInt()
 				}
 				if got.Cmp(m.deleg[i][j]) != 0 {
-					v.Failf("C07/harness-power-model", "height %d: voter %d delegation to val %d is %s on chain, model %s", height, i, j, got, m.deleg[i][j])
+					v.Failf(sanitySig, "height %d: voter %d delegation to val %d is %s on chain, model %s", height, i, j, got, m.deleg[i][j])
 				}
 			}
 			st := rk.GetStake(ctx, addr)
 			for j, dn := range c07Denoms {
 				if got := st.Coins.AmountOf(dn).BigInt(); got.Cmp(m.stake[i][j]) != 0 {
-					v.Failf("C07/harness-power-model", "height %d: voter %d staked %s is %s on chain, model %s", height, i, dn, got, m.stake[i][j])
+					v.Failf(sanitySig, "height %d: voter %d staked %s is %s on chain, model %s", height, i, dn, got, m.stake[i][j])
 				}
 			}
 		}
@@ -929,7 +953,7 @@ func runC07(c c07Case) *pbt.Verdict {
 			sort.Strings(got)
 			sort.Strings(want)
 			if strings.Join(got, ",") != strings.Join(want, ",") {
-				v.Failf("C07/harness-power-model", "height %d: restake AllowedDenoms %v on chain, model %v", height, got, want)
+				v.Failf(sanitySig, "height %d: restake AllowedDenoms %v on chain, model %v", height, got, want)
 			}
 		}()
 
@@ -1119,7 +1143,26 @@ func runC07(c c07Case) *pbt.Verdict {
 		// (c) current feeds
 		isUpdate := height%int64(c.UpdateInterval) == 0
 		cf := fk.GetCurrentFeeds(ctx)
+		feedsEqual := func(got []feedstypes.Feed, exp []c07Feed) bool {
+			set := map[string]feedstypes.Feed{}
+			for _, f := range got {
+				set[f.SignalID] = f
+			}
+			if len(set) != len(got) || len(got) != len(exp) {
+				return false
+			}
+			for _, f := range exp {
+				if g, in := set[f.ID]; !in || g.Power != f.Power || g.Interval != f.Interval {
+					return false
+				}
+			}
+			return true
+		}
 		if isUpdate {
+			lastUpdateUnknown = false
+			if reimports > 0 {
+				updateAfterReimport++
+			}
 			var eligible int
 			var tie bool
 			expFeeds, eligible, tie = refCurrentFeeds(modelTotals, c.Threshold, c.MinInterval, c.MaxInterval, c.MaxFeeds)
@@ -1145,6 +1188,27 @@ func runC07(c c07Case) *pbt.Verdict {
 			if cf.LastUpdateBlock != height || cf.LastUpdateTimestamp != now.Unix() {
 				v.Failf("C07/feeds-not-updated", "height %d is an update block but CurrentFeeds says last update block %d time %d", height, cf.LastUpdateBlock, cf.LastUpdateTimestamp)
 			}
+		} else if justReimported {
+			// The feeds genesis format carries votes only: CurrentFeeds cannot survive the round trip as a record.
+			// InitGenesis (x/feeds/keeper/genesis.go) recomputes the list from the re-derived signal totals, which is
+			// a list "of exactly the highest-powered signals that reach the threshold" for the totals at import; a
+			// carried-over list would satisfy the statement as well. Either is accepted (and from then on expected
+			// until the next update block); LastUpdateBlock/Timestamp are not asserted before that block.
+			lastUpdateUnknown = true
+			ref, _, _ := refCurrentFeeds(modelTotals, c.Threshold, c.MinInterval, c.MaxInterval, c.MaxFeeds)
+			switch {
+			case feedsEqual(cf.Feeds, ref):
+				if !feedsEqual(cf.Feeds, expFeeds) {
+					reimportFeedsRecomputed++
+				}
+				expFeeds = ref
+			case feedsEqual(cf.Feeds, expFeeds):
+				reimportFeedsCarried++
+			default:
+				expFeeds = ref // reported below against the list the genesis code should have produced
+			}
+		} else if lastUpdateUnknown {
+			lastUpdateUnasserted++
 		} else if want := height - height%int64(c.UpdateInterval); cf.LastUpdateBlock != want {
 			v.Failf("C07/feeds-not-updated", "height %d: CurrentFeeds last update block %d, want %d", height, cf.LastUpdateBlock, want)
 		}
@@ -1183,8 +1247,11 @@ func runC07(c c07Case) *pbt.Verdict {
 					sig = "C07/feeds-tiebreak"
 				}
 			}
-			v.Failf(sig, "height %d (update block: %v): CurrentFeeds %v, expected %v (threshold %d min %d max %d maxfeeds %d, totals %v)",
-				height, isUpdate, cf.Feeds, expFeeds, c.Threshold, c.MinInterval, c.MaxInterval, c.MaxFeeds, modelTotals)
+			if justReimported {
+				sig = "C07/current-feeds-after-reimport"
+			}
+			v.Failf(sig, "height %d (update block: %v, first block after a genesis re-import: %v): CurrentFeeds %v, expected %v (threshold %d min %d max %d maxfeeds %d, totals %v)",
+				height, isUpdate, justReimported, cf.Feeds, expFeeds, c.Threshold, c.MinInterval, c.MaxInterval, c.MaxFeeds, modelTotals)
 		} else {
 			for i, f := range expFeeds {
 				if cf.Feeds[i].SignalID != f.ID {
@@ -1274,6 +1341,9 @@ func runC07(c c07Case) *pbt.Verdict {
 				}
 				if ok {
 					accepted++
+					if reimports > 0 {
+						acceptedAfterReimport++
+					}
 					// (a) a vote may be accepted only if the mathematical sum of its powers is within the voter's power
 					// (the sum may legitimately exceed int64 for a voter that really has that much power)
 					if sum.Cmp(pw) > 0 {
@@ -1312,6 +1382,9 @@ func runC07(c c07Case) *pbt.Verdict {
 					m.voted[t.voter] = true
 				} else if sum.Cmp(pw) > 0 {
 					rejectedOver++
+					if reimports > 0 {
+						rejectedOverAfterReimport++
+					}
 				} else {
 					// rejection of an affordable vote: never a violation, only statistics
 					overflow := false
@@ -1405,6 +1478,9 @@ func runC07(c c07Case) *pbt.Verdict {
 					}
 				} else if below && t.amt.Cmp(hold) <= 0 {
 					withdrawRej++
+					if reimports > 0 {
+						withdrawRejAfterReimport++
+					}
 				} else if t.amt.Cmp(hold) <= 0 {
 					v.Count("withdraw_rejected_other", 1)
 				} else {
@@ -1502,6 +1578,44 @@ func runC07(c c07Case) *pbt.Verdict {
 		return flush(int(ch.Cfg.GovVoting/time.Second) + 1)
 	}
 
+	// runReimport: the state is exported with the application's own genesis export, a NEW application instance is
+	// initialised from the exported document and the chain continues on it. The (empty) first block of the new
+	// instance goes through the ordinary state check: every invariant of the statement must have survived.
+	runReimport := func() bool {
+		if len(pend) > 0 && !flush(1) {
+			return false
+		}
+		withVote, belowLock := false, false
+		for i := 0; i < c.NVoters; i++ {
+			if len(m.standing[i]) > 0 {
+				withVote = true
+			}
+			if m.lock(i).Cmp(m.power(i)) > 0 {
+				belowLock = true
+			}
+		}
+		res, err := ch.Reimport(time.Second)
+		if err != nil {
+			v.Failf("C07/genesis-reimport-failed", "after height %d: %v", ch.Height, err)
+			return false
+		}
+		if len(res.Resp.TxResults) != 0 {
+			v.Failf("C07/harness", "block %d: tx results in the empty block after a re-import", res.Height)
+			return false
+		}
+		reimports++
+		if withVote {
+			reimportWithVote++
+		}
+		if belowLock {
+			reimportBelowLock++
+		}
+		justReimported, sanitySig = true, "C07/reimport-power-mismatch"
+		checkState(res.Height, res.Time)
+		justReimported, sanitySig = false, "C07/harness-power-model"
+		return v.Violation == ""
+	}
+
 	for _, o := range c.Ops {
 		if o.Kind == "end" {
 			n := o.N
@@ -1520,6 +1634,12 @@ func runC07(c c07Case) *pbt.Verdict {
 		}
 		if o.Kind == "denoms" {
 			if !runDenoms(o.Set) {
+				return v
+			}
+			continue
+		}
+		if o.Kind == "reimport" {
+			if !runReimport() {
 				return v
 			}
 			continue
@@ -1564,6 +1684,14 @@ func runC07(c c07Case) *pbt.Verdict {
 	cls(withdrawRej, "withdraw-below-lock-rejected")
 	cls(revoteSame, "revote-same-total")
 	cls(withdrawAfterSame, "withdraw-after-same-total-revote")
+	cls(reimports, "genesis-reimport")
+	cls(reimportWithVote, "genesis-reimport-with-standing-vote")
+	cls(reimportBelowLock, "genesis-reimport-while-power-below-lock")
+	cls(reimportFeedsRecomputed, "genesis-reimport-changes-current-feeds")
+	cls(acceptedAfterReimport, "vote-accepted-after-reimport")
+	cls(rejectedOverAfterReimport, "vote-rejected-over-power-after-reimport")
+	cls(withdrawRejAfterReimport, "withdraw-below-lock-rejected-after-reimport")
+	cls(updateAfterReimport, "update-block-after-reimport")
 	cls(denomsChanged, "denoms-changed")
 	cls(denomsReallowed, "denom-reallowed")
 	cls(powerBelowLockObs, "power-below-lock")
@@ -1594,6 +1722,15 @@ func runC07(c c07Case) *pbt.Verdict {
 	v.Count("withdraw_below_lock_rejected", int64(withdrawRej))
 	v.Count("revote_same_total", int64(revoteSame))
 	v.Count("withdraw_after_same_total_revote", int64(withdrawAfterSame))
+	v.Count("genesis_reimports", int64(reimports))
+	v.Count("genesis_reimports_with_standing_vote", int64(reimportWithVote))
+	v.Count("genesis_reimports_while_power_below_lock", int64(reimportBelowLock))
+	v.Count("reimport_current_feeds_recomputed_differently", int64(reimportFeedsRecomputed))
+	v.Count("reimport_current_feeds_carried", int64(reimportFeedsCarried))
+	v.Count("last_update_block_unasserted_after_reimport", int64(lastUpdateUnasserted))
+	v.Count("votes_accepted_after_reimport", int64(acceptedAfterReimport))
+	v.Count("votes_rejected_over_power_after_reimport", int64(rejectedOverAfterReimport))
+	v.Count("withdraw_below_lock_rejected_after_reimport", int64(withdrawRejAfterReimport))
 	v.Count("denoms_changed", int64(denomsChanged))
 	v.Count("power_below_lock_voter_blocks", int64(powerBelowLockObs))
 	v.Count("revote_same_total_while_below_lock", int64(revoteSameBelow))
